@@ -49,6 +49,7 @@ type Contract struct {
 	Ghost      []string
 	Bounded    string
 	Opaque     map[string]bool // struct types treated as opaque
+	Hide       map[string]bool // spec functions applied as uninterpreted functions of (arguments, rows read)
 	Notes      []string
 	Replay     string // "auto" | "none" | template name
 	Timeout    int
@@ -245,7 +246,7 @@ func ParseContractFile(path, pkg string) (*ContractFile, error) {
 		}
 		switch word {
 		case "func":
-			cur = &Contract{File: path, Line: linenos[i], Pkg: pkg, Name: rest, Pure: map[string]bool{}, FnSpecs: map[string]string{}, Unroll: map[int]int{}, Opaque: map[string]bool{}, Replay: "auto"}
+			cur = &Contract{File: path, Line: linenos[i], Pkg: pkg, Name: rest, Pure: map[string]bool{}, FnSpecs: map[string]string{}, Unroll: map[int]int{}, Opaque: map[string]bool{}, Hide: map[string]bool{}, Replay: "auto"}
 			cf.Contracts = append(cf.Contracts, cur)
 			lem = nil
 		case "lemma":
@@ -372,6 +373,10 @@ func ParseContractFile(path, pkg string) (*ContractFile, error) {
 				cur.NoOverflow = true
 			case "nosafety":
 				cur.NoPanicOff = true
+			case "hide":
+				for _, w := range strings.Fields(rest) {
+					cur.Hide[w] = true
+				}
 			case "opaque":
 				for _, w := range strings.Fields(rest) {
 					cur.Opaque[w] = true
